@@ -131,6 +131,12 @@ Fixpoint dijkstra (fuel : nat) (e : list Z) (rf : list (list (nat * Z))) (rb : l
 
 Definition fin (fl : list bool) (v : nat) : bool := nth v fl false.
 
+(* the reduced-cost update of one arc fr -> to after a shortest-path computation that ended at a
+   node of distance dl: finalised end points shift by (d - dl) *)
+Definition rc_update (fl : list bool) (dd : list Z) (dl : Z) (fr to : nat) (rc : Z) : Z :=
+  let rc1 := if fin fl fr then rc + (nz dd fr - dl) else rc in
+  if fin fl to then rc1 - (nz dd to - dl) else rc1.
+
 Definition compute_shortest_path (nv : nat) (d : list Z) (prev : list nat) (from : nat)
            (rf : list (list (nat * Z))) (rb : list (list (nat * Z * Z))) (e : list Z)
   : option (list Z * list nat * list (list (nat * Z)) * list (list (nat * Z * Z)) * nat) :=
@@ -140,9 +146,7 @@ Definition compute_shortest_path (nv : nat) (d : list Z) (prev : list nat) (from
   let dd := sp_d st in
   let fl := sp_final st in
   let dl := nz dd l in
-  let adj := fun (fr to : nat) (rc : Z) =>
-    let rc1 := if fin fl fr then rc + (nz dd fr - dl) else rc in
-    if fin fl to then rc1 - (nz dd to - dl) else rc1 in
+  let adj := rc_update fl dd dl in
   let rf' := map (fun fx => map (fun en => (fst en, adj (fst fx) (fst en) (snd en))) (snd fx))
                  (combine (seq 0 nv) rf) in
   let rb' := map (fun fx => map (fun en => (fst (fst en), adj (fst fx) (fst (fst en)) (snd (fst en)), snd en)) (snd fx))
